@@ -95,7 +95,7 @@ theorem HazInvD.step {N T : Nat} {st : State} {L : List Nat} (h : HazInvD N st L
     · -- a walk has the slot ahead
       by_cases ew : w = t
       · subst ew
-        obtain ⟨c, hnodes, _, hor⟩ := microStep_walkC_fwd st w b a pp hw1
+        obtain ⟨c, hnodes, _, hor, _⟩ := microStep_walkC_fwd st w b a pp hw1
         rcases ahead_step st.cfg a c st.sh (st.th w).loc b pp L h.named.linked.list.1 n i hnL hi (hw w a pp hw1) hah with h2 | h2
         · rcases hor with h3 | h3
           · exact Or.inr (Or.inl ⟨w, _, h3, h2.prepend pre⟩)
